@@ -101,8 +101,11 @@ fn libm(name: &str, x: f64) -> Option<f64> {
     })
 }
 
-fn eval(text: &str) -> Sx {
+fn eval(text: &str) -> Sx { eval_style(text, false) }
+
+fn eval_style(text: &str, comma: bool) -> Sx {
     let mut ctx = fend_core::Context::new();
+    if comma { ctx.set_decimal_separator_style(fend_core::DecimalSeparatorStyle::Comma); }
     match fend_core::evaluate_with_interrupt(text, &mut ctx, &fharness::NeverInt) {
         Ok(r) => sx::l(vec![sx::s("ok"), sx::s(r.get_main_result())]),
         Err(m) => sx::l(vec![sx::s("err"), sx::s(&m)]),
@@ -115,6 +118,11 @@ fn run(op: &str, args: &[Sx]) -> Option<Sx> {
         "eval" => {
             let Some(t) = args.first().and_then(Sx::as_str) else { return Some(sx::bad()) };
             eval(t)
+        }
+        // (eval-comma "text") -> the same with DecimalSeparatorStyle::Comma
+        "eval-comma" => {
+            let Some(t) = args.first().and_then(Sx::as_str) else { return Some(sx::bad()) };
+            eval_style(t, true)
         }
         // (into-f64 neg num den) -> ("ok" bits)
         "into-f64" => {
